@@ -101,9 +101,17 @@ func zzC06(rsize int, cps string, ins string, outs string, links string, graph s
 	zzReach("end")
 }
 
+// zzC06Rejected: the front-end refused this partition although it accepted the same graph on one processor
+func zzC06Rejected(msg string) {
+	zzAssert("partition-accepted-by-the-front-end", msg == "")
+	zzReach("end")
+}
+
 func zzDispatch(name string, args []string) {
 	atoi := func(s string) int { v, _ := strconv.Atoi(s); return v }
 	switch name {
+	case "zzC06Rejected":
+		zzC06Rejected(args[0])
 	case "zzC06":
 		zzC06(atoi(args[0]), args[1], args[2], args[3], args[4], args[5], atoi(args[6]))
 	}
